@@ -407,6 +407,9 @@ class C15(object):
                 tab.rc = np.array([[a for a, b in E2], [b for a, b in E2], [1] * len(E2)], idt).reshape(3, len(E2))
                 nl2, lab2 = tab.find_uniq()
                 res["relabel"] = (int(nl2), np.array(lab2), E2)
+                # what the first call returned is still the labelling of the first graph
+                if not np.array_equal(np.asarray(lab), res["labels"]):
+                    res["first_labels_overwritten"] = True
 
         try:
             for nm in self.sim_fns:
@@ -427,6 +430,9 @@ class C15(object):
             for nm, o in saved.items():
                 setattr(props, nm, o)
             props.numba = saved_numba
+        if viol is None and res.get("first_labels_overwritten"):
+            viol = V("labels-not-0..n-1", "the label array returned by find_uniq() changed when the same table was labelled again for a "
+                                          "larger graph: the caller's labels of the first graph are no longer its connected components")
         if viol is None and res.get("scipy"):
             nls, labs = res["scipy"]
             ms_, mw_ = {}, {}
